@@ -527,6 +527,36 @@ def gen_switch_case(rng, quick):
     return {'flavour': 'switches', 'lines': lines, 'features': [{'part': 'switches:%d' % len(events)}], 'rewrites': rws}
 
 
+def gen_polarity_cases(rng):
+    """series chains, on EVERY run, in which a polarity-sensitive member (voltage source; capacitor with an initial
+    voltage) is reversed with respect to the alphabetically first member of its group and separated from it by other
+    components -- every position of the reversed member, with and without foreign elements in between"""
+    out = []
+    r = lambda: fstr(rv(rng))
+    v = lambda: str(rng.choice([-5, -3, -2, 2, 3, 5, 7]))
+    for rev in (2, 3, 4):
+        # 1 -V1- 2 -R1- 3 -V2- 4 -L1- 5 -V3- 6 -V4- 0, the member `rev` written the other way round
+        segs = [('V1', '1', '2'), ('V2', '3', '4'), ('V3', '5', '6'), ('V4', '6', '0')]
+        lines = []
+        for j, (nm, a, b) in enumerate(segs):
+            a, b = (b, a) if j + 1 == rev else (a, b)
+            lines.append('%s %s %s step %s' % (nm, a, b, v()))
+        lines += ['R1 2 3 %s' % r(), 'L1 4 5 %s' % r(), 'R9 1 0 %s' % r(), 'C9 1 0 %s' % r()]
+        out.append({'flavour': 'polarity', 'lines': lines, 'features': [{'part': 'reversed-V:%d' % rev}],
+                    'rewrites': [{'op': 'simplify', 'kwargs': {}}, {'op': 'simplify_series', 'kwargs': {}}]})
+    for rev in (2, 3):
+        # capacitors with initial voltages: 1 -C1- 2 -R1- 3 -C2- 4 -R2- 5 -C3- 0
+        segs = [('C1', '1', '2'), ('C2', '3', '4'), ('C3', '5', '0')]
+        lines = []
+        for j, (nm, a, b) in enumerate(segs):
+            a, b = (b, a) if j + 1 == rev else (a, b)
+            lines.append('%s %s %s %s %s' % (nm, a, b, r(), v()))
+        lines += ['R1 2 3 %s' % r(), 'R2 4 5 %s' % r(), 'V1 1 0 step %s' % v()]
+        out.append({'flavour': 'polarity', 'lines': lines, 'features': [{'part': 'reversed-C-ic:%d' % rev}],
+                    'rewrites': [{'op': 'simplify', 'kwargs': {}}]})
+    return out
+
+
 def gen_opamp_case(rng, quick):
     """an inverting / non-inverting amplifier around `E… opamp` with differential gain, optional
     common-mode gain and optional (possibly zero) output resistance"""
@@ -810,7 +840,7 @@ def became_symbolic(orig_sol, new_sol, ren, retained_nodes):
 
 
 def run(chk, replay=None):
-    broken = chk.lean(['Lcapy/Props/C05.lean', 'Lcapy/Props/C05CW.lean'],
+    broken = chk.lean(['Lcapy/Props/C05.lean', 'Lcapy/Props/C05CW.lean', 'Lcapy/Props/C05Net.lean', 'Lcapy/Props/NonVacuityC05.lean'],
                       helper_files=['Lcapy/Proofs/Rewrite.lean', 'Lcapy/Proofs/RewriteCW.lean', 'Lcapy/Proofs/RewriteCWSteps.lean',
                                     'Lcapy/Model/Rewrite.lean', 'Lcapy/Model/RewriteCW.lean', 'Lcapy/Spec/Retained.lean',
                                     'Lcapy/Spec/PortRel.lean', 'Lcapy/Spec/Laws.lean', 'Lcapy/Driver/C05.lean'],
@@ -853,8 +883,8 @@ def run(chk, replay=None):
             cases.append({'id': cid, 'lines': [lcapy_line(e) for e in ck['elts']], 'rewrites': gen_rewrites(rng, ck, quick),
                           'pts': pts, 's0': pts[0], 'elts': ck['elts'], 'features': ck['features'], 'flavour': ck['flavour']})
             cid += 1
-        for k in range(6 if quick else 24):
-            ck = gen_switch_case(rng, quick) if k % 2 == 0 else gen_opamp_case(rng, quick)
+        extra = [gen_switch_case(rng, quick) if k % 2 == 0 else gen_opamp_case(rng, quick) for k in range(6 if quick else 24)]
+        for ck in extra + gen_polarity_cases(rng):
             pts = [[rng.randint(1, 40), rng.randint(1, 9)], [rng.randint(41, 90), rng.randint(1, 9)]]
             cases.append({'id': cid, 'lines': ck['lines'], 'rewrites': ck['rewrites'], 'pts': pts, 's0': pts[0], 'elts': None,
                           'features': ck['features'], 'flavour': ck['flavour']})
